@@ -12,7 +12,7 @@ import traceback
 VERIF = os.path.dirname(os.path.dirname(os.path.abspath(__file__)))
 REPO = os.environ.get('VERIF_REPO', '/repo')
 EVIDENCE_DIR = os.environ.get('VERIF_EVIDENCE_DIR') or os.path.join(VERIF, 'evidence')     # mutcheck writes elsewhere
-REPLAY_DIR = os.path.join(VERIF, 'replays')
+REPLAY_DIR = os.environ.get('VERIF_REPLAY_DIR') or os.path.join(VERIF, 'replays')          # mutation runs write elsewhere
 FINDINGS_FILE = os.path.join(VERIF, 'known_findings.json')
 
 sys.dont_write_bytecode = True
